@@ -968,14 +968,12 @@ func (g *generatorObject) step(res Value, resType resultType, ex *Exception) Val
 		g.state = genStateSuspendedYield
 		return g.val.runtime.createIterResultObject(res, false)
 	case resultYieldDelegate:
-		g.state = genStateSuspendedYield
-		return g.delegate(res)
+		return g.delegate(res, genStateSuspendedYield)
 	case resultYieldRes:
 		g.state = genStateSuspendedYieldRes
 		return g.val.runtime.createIterResultObject(res, false)
 	case resultYieldDelegateRes:
-		g.state = genStateSuspendedYieldRes
-		return g.delegate(res)
+		return g.delegate(res, genStateSuspendedYieldRes)
 	case resultNormal:
 		g.state = genStateCompleted
 		return g.val.runtime.createIterResultObject(res, true)
@@ -984,27 +982,35 @@ func (g *generatorObject) step(res Value, resType resultType, ex *Exception) Val
 	}
 }
 
-func (g *generatorObject) delegate(v Value) Value {
+// delegate starts the delegation of a yield* expression. The generator is still running (executing) while
+// the iterator is obtained; state is the suspended state to enter once the inner iterator has been obtained.
+func (g *generatorObject) delegate(v Value, state generatorState) Value {
+	g.state = genStateExecuting
 	ex := g.val.runtime.try(func() {
 		g.delegated = g.val.runtime.getIterator(v, nil)
 	})
 	if ex != nil {
 		g.delegated = nil
-		g.state = genStateCompleted
 		return g.step(g.gen.nextThrow(ex))
 	}
+	g.state = state
 	return g.next(_undefined)
 }
 
+// tryCallDelegated calls a method of the inner iterator of a yield* expression. The yield* loop runs inside
+// the generator, so the generator is executing (re-entrant calls must be rejected with a TypeError) until the
+// inner iterator has produced its result.
 func (g *generatorObject) tryCallDelegated(fn func() (Value, bool)) (ret Value, done bool) {
+	state := g.state
+	g.state = genStateExecuting
 	ex := g.val.runtime.try(func() {
 		ret, done = fn()
 	})
 	if ex != nil {
 		g.delegated = nil
-		g.state = genStateExecuting
 		return g.step(g.gen.nextThrow(ex)), false
 	}
+	g.state = state
 	return
 }
 
